@@ -70,7 +70,8 @@ class SpreadsheetValidator:
         self._hed_validator = HedValidator(self._schema, def_dicts=def_dicts)
         if data.onsets is not None:
             self._onset_validator = OnsetValidator()
-            onset_mask = ~pd.isna(pd.to_numeric(onsets['onset'], errors='coerce'))
+            # Which rows of the file have a time: by the file's own rows, not by the split and re-sorted time points
+            onset_mask = ~pd.isna(pd.to_numeric(data.onsets, errors='coerce'))
         else:
             self._onset_validator = None
             onset_mask = None
@@ -114,7 +115,7 @@ class SpreadsheetValidator:
                 error_handler.pop_error_context()  # Row
                 continue
 
-            if not row_strings or (onset_mask is not None and onset_mask.iloc[row_number]):
+            if not row_strings or (onset_mask is not None and onset_mask.loc[row_number]):
                 error_handler.pop_error_context()  # Row
                 continue
 
